@@ -28,6 +28,20 @@ def _vd(ctx, a, dt, trap, level):
     if level == 'alias':
         return lib.displacements.velocity_and_displacement_from_acceleration(a, dt, trap=trap)
     asig = lib.AccSignal(a, dt)
+    if level == 'object_after_other_rule':
+        # the series of the OTHER rule are already cached (read, or generated explicitly) when this rule is requested
+        if trap:
+            asig.generate_displacement_and_velocity_series(trap=False)
+            _ = asig.pgv
+            asig.generate_displacement_and_velocity_series(trap=True)
+        else:
+            _ = asig.velocity, asig.pgd
+            asig.generate_displacement_and_velocity_series(trap=False)
+        return asig.velocity, asig.displacement
+    if level == 'object_default_after_rect':
+        asig.generate_displacement_and_velocity_series(trap=False)
+        asig.generate_displacement_and_velocity_series()
+        return asig.velocity, asig.displacement
     if not trap:
         asig.generate_displacement_and_velocity_series(trap=False)
     return asig.velocity, asig.displacement
@@ -148,6 +162,10 @@ def obligations(tier, seed):
         for trap in (True, False):
             for level in ('array', 'object'):
                 yield Ob('increments', {'n': n, 'trap': trap, 'level': level, 'kind': 'i'})    # integer-dtype record
+    for n in (3, 5):
+        for trap in (True, False):
+            yield Ob('increments', {'n': n, 'trap': trap, 'level': 'object_after_other_rule'})
+        yield Ob('increments', {'n': n, 'trap': True, 'level': 'object_default_after_rect'})
     for n in ([2, 4, 8] if q else [2, 5, 12, 20]):
         for trap in (True, False):
             yield Ob('linearity', {'n': n, 'trap': trap})
